@@ -568,11 +568,20 @@ def _unexpected(name: str, p: xml.parsers.expat.XMLParserType) -> LMFError:
 
 # Validation ###########################################################
 
+def _require(
+    condition: object,
+    message: str = 'missing or misplaced element or attribute'
+) -> None:
+    # not an assert statement as those are removed by python -O
+    if not condition:
+        raise LMFError(message)
+
+
 def _validate(elem: _Elem) -> Union[Lexicon, LexiconExtension]:
     ext = elem.get('extends')
     if ext:
-        assert 'id' in ext
-        assert 'version' in ext
+        _require('id' in ext)
+        _require('version' in ext)
         _validate_lexicon(elem, True)
         return cast(LexiconExtension, elem)
     else:
@@ -582,10 +591,10 @@ def _validate(elem: _Elem) -> Union[Lexicon, LexiconExtension]:
 
 def _validate_lexicon(elem: _Elem, extension: bool) -> None:
     for attr in 'id', 'version', 'label', 'language', 'email', 'license':
-        assert attr in elem, f'<Lexicon> missing required attribute: {attr}'
+        _require(attr in elem, f'<Lexicon> missing required attribute: {attr}')
     for dep in elem.get('requires', []):
-        assert 'id' in dep
-        assert 'version' in dep
+        _require('id' in dep)
+        _require('version' in dep)
     _validate_entries(elem.get('entries', []), extension)
     _validate_synsets(elem.get('synsets', []), extension)
     _validate_frames(elem.get('frames', []))
@@ -593,18 +602,18 @@ def _validate_lexicon(elem: _Elem, extension: bool) -> None:
 
 def _validate_entries(elems: list[_Elem], extension: bool) -> None:
     for elem in elems:
-        assert 'id' in elem
+        _require('id' in elem)
         if not extension:
-            assert not elem.get('external')
+            _require(not elem.get('external'))
         lemma = elem.get('lemma')
         if not elem.get('external'):
-            assert lemma is not None
+            _require(lemma is not None)
             elem.setdefault('meta')
         # lemma and forms are the same except for partOfSpeech and id
         if lemma is not None and not lemma.get('external'):
-            assert 'partOfSpeech' in lemma
+            _require('partOfSpeech' in lemma)
         for form in elem.get('forms', []):
-            assert not form.get('external') or form.get('id')
+            _require(not form.get('external') or form.get('id'))
         _validate_forms(([lemma] if lemma else []) + elem.get('forms', []), extension)
         _validate_senses(elem.get('senses', []), extension)
         _validate_frames(elem.get('frames', []))
@@ -613,35 +622,35 @@ def _validate_entries(elems: list[_Elem], extension: bool) -> None:
 def _validate_forms(elems: list[_Elem], extension: bool) -> None:
     for elem in elems:
         if not extension:
-            assert not elem.get('external')
+            _require(not elem.get('external'))
         if not elem.get('external'):
-            assert 'writtenForm' in elem
+            _require('writtenForm' in elem)
         for pron in elem.get('pronunciations', []):
             pron.setdefault('text', '')
             if pron.get('phonemic'):
                 pron['phonemic'] = False if pron['phonemic'] == 'false' else True
         for tag in elem.get('tags', []):
             tag.setdefault('text', '')
-            assert 'category' in tag
+            _require('category' in tag)
 
 
 def _validate_senses(elems: list[_Elem], extension: bool) -> None:
     for elem in elems:
-        assert 'id' in elem
+        _require('id' in elem)
         if not extension:
-            assert not elem.get('external')
+            _require(not elem.get('external'))
         if not elem.get('external'):
-            assert 'synset' in elem
+            _require('synset' in elem)
             elem.setdefault('meta')
         for rel in elem.get('relations', []):
-            assert 'target' in rel
-            assert 'relType' in rel
+            _require('target' in rel)
+            _require('relType' in rel)
             rel.setdefault('meta')
         for ex in elem.get('examples', []):
             ex.setdefault('text', '')
             ex.setdefault('meta')
         for cnt in elem.get('counts', []):
-            assert 'text' in cnt
+            _require('text' in cnt)
             cnt['value'] = int(cnt.pop('text'))
             cnt.setdefault('meta')
         if elem.get('lexicalized'):
@@ -652,25 +661,25 @@ def _validate_senses(elems: list[_Elem], extension: bool) -> None:
 
 def _validate_frames(elems: list[_Elem]) -> None:
     for elem in elems:
-        assert 'subcategorizationFrame' in elem
+        _require('subcategorizationFrame' in elem)
         if elem.get('senses'):
             elem['senses'] = elem['senses'].split()
 
 
 def _validate_synsets(elems: list[_Elem], extension: bool) -> None:
     for elem in elems:
-        assert 'id' in elem
+        _require('id' in elem)
         if not extension:
-            assert not elem.get('external')
+            _require(not elem.get('external'))
         if not elem.get('external'):
-            assert 'ili' in elem
+            _require('ili' in elem)
             elem.setdefault('meta')
         for defn in elem.get('definitions', []):
             defn.setdefault('text', '')
             defn.setdefault('meta')
         for rel in elem.get('relations', []):
-            assert 'target' in rel
-            assert 'relType' in rel
+            _require('target' in rel)
+            _require('relType' in rel)
             rel.setdefault('meta')
         for ex in elem.get('examples', []):
             ex.setdefault('text', '')
